@@ -305,3 +305,24 @@ def run_case(case, ctx):
               lambda: "x_plot=%r y_plot=%r expected %r %r" % (list(xp), list(yp), ex, ey))
     # the function object is unchanged by all of this
     ctx.check(list(real.x) == f["x"], "object_modified", "x changed")
+    # the same object after it has been scaled in place: the queries made above must
+    # not have left anything behind that still describes the unscaled function
+    c = 3.0
+    ctx.call("mul_scalar", real.mul_scalar, c)
+    ms = model.scale(Fr(c))
+    for ch in case["chains"]:
+        a, b = ch[0], ch[-1]
+        got = ctx.call("integral_after_scaling", real.integral, (a, b))
+        ref = ms.integral(Fr(a), Fr(b))
+        ctx.check(close(got, ref, c), "integral_after_mul_scalar",
+                  lambda: "%s x=%r: after mul_scalar(%r) integral((%r,%r))=%r exact %r"
+                  % (f["kind"], f["x"], c, a, b, float(got), float(ref)))
+    full2 = ctx.call("integral_none_after_scaling", real.integral)
+    ctx.check(close(full2, ms.integral(), c), "integral_after_mul_scalar",
+              lambda: "after mul_scalar(%r) integral()=%r exact %r"
+              % (c, float(full2), float(ms.integral())))
+    if times:
+        g2 = ctx.call("eval_after_scaling", real, times)
+        ctx.check(all(close(g, c * float(e), c) for g, e in zip(g2, exp)),
+                  "evaluation_after_mul_scalar",
+                  lambda: "after mul_scalar(%r): f(%r)=%r" % (c, times, list(map(float, g2))))
